@@ -1,7 +1,7 @@
 use crate::common::utils::str::pluralize;
 use crate::server::event::Event;
 use crate::server::event::journal::JournalReader;
-use crate::server::event::journal::prune::prune_journal;
+use crate::server::event::journal::prune::{find_newest_ids, prune_journal};
 use crate::server::event::journal::write::JournalWriter;
 use crate::server::event::payload::EventPayload;
 use std::ffi::OsString;
@@ -99,9 +99,18 @@ async fn streaming_process(
                             tx.send(event?)?;
                         }
                     },
-                    Some(EventStreamMessage::PruneJournal { live_jobs, live_workers, callback })  => {
+                    Some(EventStreamMessage::PruneJournal { mut live_jobs, mut live_workers, callback })  => {
                         writer.flush()?;
                         drop(writer);
+                        // Keep the newest job and the newest worker, their ids define what ids
+                        // are issued after the server is restarted from the pruned journal
+                        let (newest_job, newest_worker) = find_newest_ids(&mut JournalReader::open(journal_path)?)?;
+                        if let Some(job_id) = newest_job {
+                            live_jobs.insert(job_id);
+                        }
+                        if let Some(worker_id) = newest_worker {
+                            live_workers.insert(worker_id);
+                        }
                         let mut tmp_path: OsString = journal_path.into();
                         tmp_path.push(".tmp");
                         let tmp_path: PathBuf = tmp_path.into();
